@@ -9,6 +9,8 @@ From WG Require Import BV.RefSel.
 From WG Require Import BV.Bits.
 From WG Require Import Par.Splice.
 From WG Require Import Flags.Props.
+From WG Require Import PMF.Sched.
+From WG Require Import PMF.Ord.
 
 Extraction Language OCaml.
 
@@ -56,4 +58,10 @@ Extraction "model.ml"
   representable
   java_from_props
   version
+  pmf_run
+  pmf_ord_run
+  pmf_tasks
+  combine_results
+  seq_fold
+  ord_value
 .
